@@ -66,8 +66,8 @@ Conv(f, v) ==
             [] v.t \in {"int", "uint"} -> Str(DecText(BigOf(v)))
             [] v.t = "bytes" -> (LET c == Utf8Dec(v.v, <<>>) IN IF c = BadUtf THEN Err ELSE Str(c))
             [] v.t = "bool" -> Indef               \* the statement lists no bool conversions
-            [] v.t = "timestamp" -> (IF TRem(BigOf(v), Mega) = Z THEN Str(Rfc3339(BigOf(v))) ELSE Indef)     \* whole seconds only
-            [] v.t = "duration" -> (IF TRem(BigOf(v), Mega) = Z THEN Str(DurText(BigOf(v))) ELSE Indef)
+            [] v.t = "timestamp" -> Str(Rfc3339(BigOf(v)))     \* (a fraction of a second is part of the value and of its text)
+            [] v.t = "duration" -> Str(DurText(BigOf(v)))
             [] OTHER -> Indef)
     [] f = "bytes" -> (CASE v.t = "bytes" -> v [] v.t = "string" -> Bytes(Utf8Enc(v.v)) [] OTHER -> Indef)
     [] f = "bool" -> (CASE v.t = "bool" -> v
